@@ -5,7 +5,8 @@
      function.go  LFunction.LocalName;
      state.go     findLocal / GetLocal / SetLocal (name from LocalName, value from register
                   LocalBase+no-1).
-   It describes the tree after the fix commits 0bd7783 (EndScope) and 6924931 (loop headers);
+   It describes the tree after the fix commits 0bd7783 (EndScope), 6924931 (loop headers) and
+   aa93f59 (hidden loop variables end after the loop instruction);
    the pre-fix EndScope is kept as `leave_old` for the refutation lemma. *)
 From GL Require Import Common.Bytes Dbg.Scope.
 
